@@ -126,6 +126,12 @@ class ExprMixin(object):
             setattr(self, name, value)
 
 
+def _strtext(operand):
+    # str() of an expression is inlined into generated source by the compiler, so constants
+    # (text in particular) must stay Python literals; only nested expressions print via str
+    return str(operand) if isinstance(operand, ExprMixin) else repr(operand)
+
+
 def _operandtext(operand, render, beforepow=False):
     # Unary expressions print without own parentheses, so they need them when used as operands,
     # and a negative number in front of ** would otherwise bind as -(x ** y).
@@ -147,7 +153,7 @@ class UniExpr(ExprMixin):
         return "%s %s" % (opnames[self.op], _operandtext(self.operand, repr))
 
     def __str__(self):
-        return "%s %s" % (opnames[self.op], _operandtext(self.operand, str))
+        return "%s %s" % (opnames[self.op], _operandtext(self.operand, _strtext))
 
     def __call__(self, obj, *args):
         operand = self.operand(obj) if callable(self.operand) else self.operand
@@ -165,7 +171,7 @@ class BinExpr(ExprMixin):
         return "(%s %s %s)" % (_operandtext(self.lhs, repr, self.op is operator.pow), opnames[self.op], _operandtext(self.rhs, repr))
 
     def __str__(self):
-        return "(%s %s %s)" % (_operandtext(self.lhs, str, self.op is operator.pow), opnames[self.op], _operandtext(self.rhs, str))
+        return "(%s %s %s)" % (_operandtext(self.lhs, _strtext, self.op is operator.pow), opnames[self.op], _operandtext(self.rhs, _strtext))
 
     def __call__(self, obj, *args):
         lhs = self.lhs(obj) if callable(self.lhs) else self.lhs
@@ -247,7 +253,7 @@ class FuncPath(ExprMixin):
         if self.__operand is None:
             return "%s_" % (self.__func.__name__)
         else:
-            return "%s_(%s)" % (self.__func.__name__, self.__operand)
+            return "%s_(%s)" % (self.__func.__name__, _strtext(self.__operand))
 
     def __call__(self, operand, *args):
         if self.__operand is None:
